@@ -202,6 +202,15 @@ func (in *instance) body() {
 		os.WriteFile(filepath.Join(in.dir, p), []byte("x"), 0o666)
 	}
 	os.Remove(filepath.Join(in.dir, "n")) // "n" does not exist when the holders start
+	// "r" is owned by root and nobody may write it; unprivileged holders must be
+	// able to reach it
+	os.WriteFile(filepath.Join(in.dir, "r"), []byte("x"), 0o444)
+	os.Chmod(filepath.Join(in.dir, "r"), 0o444)
+	if in.sc.unpriv() {
+		for d := in.dir; strings.HasPrefix(d, os.Getenv("VERIF_SCRATCH")) && len(d) > 1 && os.Getenv("VERIF_SCRATCH") != ""; d = filepath.Dir(d) {
+			os.Chmod(d, 0o755)
+		}
+	}
 	os.Mkdir(filepath.Join(in.dir, "d"), 0o777)
 	if _, err := os.Lstat(filepath.Join(in.dir, "f")); err != nil {
 		if err := syscall.Mkfifo(filepath.Join(in.dir, "f"), 0o666); err != nil {
@@ -291,6 +300,9 @@ func acquireOnce(m monitor, dir string, shared *lockedfile.Mutex, th int, a acq)
 		if a.Path == "d" {
 			return // a directory cannot be opened for writing: refused, nothing is held
 		}
+		if a.Path == "r" && a.writer() && os.IsPermission(err) {
+			return // no permission to write: refused, nothing is held
+		}
 		m.fail(fmt.Sprintf("thread %d: %s failed: %v", th, a, err))
 		return
 	}
@@ -329,10 +341,18 @@ const pmodeTag = " [one process per holder]"
 
 func (s scenario) pmode() bool { return strings.HasSuffix(s.Name, pmodeTag) }
 
+// unprivTag: the holder processes give up root before they start (user and
+// group 65534), so that file permissions apply to them.
+const unprivTag = " as an unprivileged user"
+
+func (s scenario) unpriv() bool { return strings.Contains(s.Name, unprivTag) }
+
 type pchildSpec struct {
 	Dir  string `json:"dir"`
 	Th   int    `json:"th"`
 	Prog []acq  `json:"prog"`
+	// Unpriv: give up root first
+	Unpriv bool `json:"unpriv,omitempty"`
 }
 
 // remote is the child's side of the pipe protocol: one line to the coordinator,
@@ -359,6 +379,15 @@ func (r *remote) fail(msg string)                  { r.send("E %s", strings.Repl
 
 func pchildMain(spec pchildSpec) {
 	r := &remote{out: bufio.NewWriter(os.Stdout), in: bufio.NewReader(os.Stdin)}
+	if spec.Unpriv && os.Geteuid() == 0 {
+		syscall.Setgroups(nil)
+		if syscall.Setgid(65534) != nil || syscall.Setuid(65534) != nil {
+			// not possible here: the scenario says nothing then (no acquisition is made)
+			fmt.Fprintln(r.out, "F")
+			r.out.Flush()
+			return
+		}
+	}
 	vos.Reset()
 	vos.Hook = func(op *vos.Op) vos.Verdict {
 		r.send("P %s %s", op.Kind, filepath.Base(op.Path))
@@ -391,7 +420,7 @@ func pchildMain(spec pchildSpec) {
 // proxy runs one holder as a child process and turns its messages into
 // scheduler calls of the coordinating process.
 func (in *instance) proxy(th int, prog []acq) {
-	spec, _ := json.Marshal(pchildSpec{in.dir, th, prog})
+	spec, _ := json.Marshal(pchildSpec{in.dir, th, prog, in.sc.unpriv()})
 	cmd := exec.Command(os.Args[0], "-pchild", string(spec))
 	stdin, _ := cmd.StdinPipe()
 	stdout, _ := cmd.StdoutPipe()
@@ -688,6 +717,10 @@ func scenarios(th bool) []scenario {
 			b = 2 // 70 scenarios with real processes: all schedules of each do not fit the cap
 		}
 		ps = append(ps, scenario{sc.Name + pmodeTag, sc.Threads, b, false})
+	}
+	// a lock file that the holders may read but not write (they give up root first)
+	for _, t := range [][][]acq{{{a("mutex", "r")}, {a("mutex", "r")}}, {{a("mutex", "r")}, {a("open", "r")}}, {{a("edit", "r")}, {a("open", "r")}}, {{a("open", "r")}, {a("open", "r")}}} {
+		ps = append(ps, scenario{fmt.Sprintf("%s(read-only file)||%s(read-only file)", t[0][0].Form, t[1][0].Form) + unprivTag + pmodeTag, t, -1, false})
 	}
 	return append(scs, ps...)
 }
